@@ -68,6 +68,16 @@ def _multi():
     )
     out.append(("multi:dswo+base(dispatch)", [("dswo", base_d, {"B": 9}), base_d], [A3, B3, ("D", [ABSENT, "x", "zz"])]))
     out.append(("multi:dswo(dispatch preset)+base", [("dswo", base_d, {"D": "x"}), base_d], [A3, B3, ("D", [ABSENT, "x"])]))
+    # an overload registered on the dataset after its derivatives were taken: derivative and dataset share the
+    # cache and must go on sharing the overload table
+    base_l = (
+        "ds",
+        "base",
+        {"params": [("opt", "A")], "dispatch": ("optkey", "D"), "overloads": [("x", ("opt", "B"))],
+         "late_overloads": [("y", ("apply", ("opt", "A"), ("fn", "f")))], "callback": ("fn", "cb")},
+    )
+    out.append(("multi:dswo/dswdo+base(late overload)", [("dswo", base_l, {"B": 9}), base_l, ("dswdo", base_l, {"D": "y"})],
+                [("A", [1, 2]), ("B", [ABSENT, 1, 9]), ("D", [ABSENT, "x", "y"])]))
     inner = ("ds", "inner", {"params": [("opt", "A")]})
     mid1 = ("ds", "mid1", {"params": [inner, ("opt", "B", ("val", 0))]})
     mid2 = ("ds", "mid2", {"params": [inner]})
